@@ -20,7 +20,7 @@ const (
 	SStr  = "Str"
 )
 
-const prelude = `; --- govc prelude: strings as an abstract sort with length/at, Go integer division ---
+const preludeStr = `; --- govc prelude: strings as an abstract sort with length/at, Go integer division ---
 (declare-sort Str 0)
 (declare-fun str.len (Str) Int)
 (declare-fun str.at (Str Int) Int)
@@ -47,6 +47,9 @@ const prelude = `; --- govc prelude: strings as an abstract sort with length/at,
 (assert (forall ((a Str) (b Str)) (! (not (and (str.lt a b) (str.lt b a))) :pattern ((str.lt a b)))))
 (declare-fun err.msg (Int) Str)
 (define-fun str.ascii ((a Str)) Bool (forall ((i Int)) (! (=> (and (<= 0 i) (< i (str.len a))) (< (str.at a i) 128)) :pattern ((str.at a i)))))
+`
+
+const preludeArith = `; --- govc prelude: Go integer division ---
 (define-fun go.div ((a Int) (b Int)) Int (ite (>= a 0) (ite (> b 0) (div a b) (- (div a (- b)))) (ite (> b 0) (- (div (- a) b)) (div (- a) (- b)))))
 (define-fun go.mod ((a Int) (b Int)) Int (- a (* b (go.div a b))))
 (define-fun go.max ((a Int) (b Int)) Int (ite (>= a b) a b))
